@@ -8,6 +8,9 @@ RULE = ("op `pkt <frame> <script>`: a PcapPacket built with the verif_new hook, 
         "then serialised with Vec<u8>::from(&PcapPacket) (what pcap_write / write / filter output call); the spec demands record header ++ captured bytes "
         "at every W of a script without assignments; frames: every shape of DESIGN §C15 truncated at every byte offset x three script families; "
         "distinct = distinct op line; non-trivial = the implementation produced a serialisation")
+NOTES = ["the model (P2sh.Proto) is the code after /repo commits aefd4e7, d83dd30, 3d62d14, cc7014b: P2sh.Props.C15.reads_preserve_bytes holds without restriction; "
+         "a revert of one of them shows as model disagreements and as oracle failures classed W:tcp-urgent-dropped / W:ipv4-options-dropped / W:error-object-swallows-rest / W:unexplained",
+         "the witness lines of the repaired findings in known_findings.json are run as regression inputs on every check"]
 ASSUMPTIONS = ["the link type is Ethernet (what p2sh assumes for every savefile)",
                "Vec<u8>::from(&PcapPacket) is the only serialiser: pcap_write, write and filter-mode output all call it (checked end to end by C19/C20)"]
 HARNESS_TIMEOUT = 300
